@@ -13,23 +13,33 @@ _THEOREM_NAMES = ["C01_roundtrip_general", "C01_save_total", "C01_roundtrip", "C
                   "C01_fixpoint", "C01_fixpoint_dir", "C01_same_type_save", "C01_same_type_load", "C01_same_type",
                   "C01_type_dispatch", "C01_wf_of_wfB", "C01_wfB_iff", "C01_load_gate_iff", "C01_load_gate_not_found",
                   "C01_load_file_type", "C01_roundtrip_dir_relative", "C01_fixpoint_dir_dot", "C01_cycles_dir_outside",
-                  "C01_fixpoint_dir_iff", "C01_save_gate_iff", "C01_save_load_gate"]
+                  "C01_fixpoint_dir_iff", "C01_save_gate_iff", "C01_save_load_gate",
+                  # follow-up: the file system as the state carried between calls
+                  "C01_fs_write_read", "C01_fs_write_frame", "C01_fs_save_overwrites", "C01_fs_load_last_save",
+                  "C01_fs_save_load", "C01_fs_history_free", "C01_fs_history", "C01_fs_history_roundtrip",
+                  "C01_fs_history_fixpoint"]
 THEOREMS = [_T + n for n in _THEOREM_NAMES]
 LEVEL_TEXT = ("Lean theorems over an executable model of all 26 AOEF adapter modules (data classes, document classes, "
               "save = first-wins tables over the post-order traversal, single-pass loader with lenient / strict "
               "references): load (save c) = c for every collection constructor under the explicit coherence "
               "hypothesis WF, with and without an audio directory (relative or absolute; with a directory the n-cycle "
               "fixpoint holds exactly when every recording lies inside it), and n-cycle fixpoint; the file-level gates "
-              "of io.save / io.load. The model is tied to the code on every run by regenerated FieldsAgree obligations "
+              "of io.save / io.load; histories over a file-system model path -> content in which save overwrites: a load "
+              "returns the collection last saved to that path whatever any path held before and whatever happened at other "
+              "paths, and every history of save/load cycles answers step by step as the pure model (history-freedom). "
+              "The model is tied to the code on every run by regenerated FieldsAgree obligations "
               "(every data class and every AOEF object class, found by its position in the document; decide +kernel on "
               "the model structures' own field lists), the adapter-table obligation, and differential correspondence "
               "of documents, loads and n-cycle round trips on pool-generated object graphs (in-process and through a "
               "fresh loader process), each round trip also judged after every cycle by a walk over the declared "
-              "fields (model_fields) of the real classes.")
+              "fields (model_fields) of the real classes, and of histories of saves / loads / foreign writes over shared "
+              "real files against the file-system model.")
 LEVEL_NOTE = ("Trusted: Lean kernel; the harness' conversion between pydantic objects / JSON documents and the model's "
               "JSON layout; pydantic's parsing of atoms (floats, datetimes, e-mail, uuid) and JSON text encoding, which "
               "the model treats as opaque atoms. Unmodelled: Recording's extra='allow' undeclared fields, non-simple "
-              "terms (the property permits reduction of a term to its label), geometry re-validation (C03). The "
+              "terms (the property permits reduction of a term to its label), geometry re-validation (C03); of the file "
+              "system only path -> content is modelled (no directories, permissions, links, concurrent writers; a path is "
+              "a key, distinct names are distinct files). The "
               "strength of the model/code tie is bounded by the generators (distribution in the evidence).")
 TECHNIQUE = ("Lean 4 proof (round trip and fixpoint theorems over a hand-written executable model of the AOEF adapters); "
              "regenerated FieldsAgree / adapter-table obligations (decide +kernel); differential correspondence of "
@@ -37,7 +47,14 @@ TECHNIQUE = ("Lean 4 proof (round trip and fixpoint theorems over a hand-written
 RULE = ("distinct (operation, collection) inputs on which the real save/load ran without error; collections are "
         "pool-generated object graphs of all eight types with shared sub-objects and equal-content twins, optional "
         "fields present/absent (randomly and one declared field at a time), falsy-but-meaningful and extreme atoms, "
-        "relative and absolute audio directories in several spellings")
+        "relative and absolute audio directories in several spellings; objects constructed by the constructors, "
+        "model_validate (dict / tuples / JSON), model_copy, deepcopy, with ints and numpy scalars; every spelling of the "
+        "calls (keyword / positional, format, type, str / Path, missing parent, pre-existing target, relative file name) "
+        "x every type x directory class; every list slot one at a time reordered / with a repeated element; one uuid "
+        "shared across kinds; time_expansion at 10^-6..10^-15 around 1.0; near-twins; 17 / 257 / 1025 elements; "
+        "histories over shared files (shrink, grow, edit a loaded object and save it back, alternate collections, "
+        "change the audio directory, foreign content at the target, interleaved paths, failed saves, poisoned results, "
+        "revised content, same-length documents), every step judged on its own")
 TRUSTED = ["pydantic-core parsing / dumping of atoms (float repr round trip, datetime, uuid, e-mail) and JSON text",
            "harness/aoef.py: build (model JSON -> pydantic objects), dump (objects -> model JSON), doc_to_model "
            "(dump's field lists are double-checked on every round trip by the declared-field walk of harness/c01_generic.py)"]
@@ -51,7 +68,10 @@ NOT_COMPARED = ["order of the top-level definition lists of a document and the n
                 "absent vs empty optional lists in the document (representation, not content)",
                 "AOEFObject.created_on / version of the file wrapper", "error messages",
                 "the sign of a zero (-0.0 == 0.0; negative zeros are never generated)",
-                "a time-zone offset with a seconds part (pydantic drops the seconds; never generated)"]
+                "a time-zone offset with a seconds part (pydantic drops the seconds; never generated)",
+                "what a file holds after a save that raised (the property speaks of saves that succeed): loads of such a "
+                "file are run but not compared until the next successful save to it",
+                "instances of user-defined subclasses of the data classes (the loader cannot return a class it does not know)"]
 
 HAVE_DISPATCH_THEOREM = True     # set when Proofs/C01.lean provides C01_type_dispatch
 _DISPATCH_OBLIGATION = (
@@ -142,7 +162,7 @@ def _impl_load_gate(inp):
     from soundevent import io
     from .. import leanio as _leanio
     ty = inp["doc_type"]
-    if ty not in _GATE_DOCS:
+    if ty not in _GATE_DOCS:            # (a replay: `_stage_gate` has not written the model's documents)
         cj = aoefgen.gen_collection(random.Random("gate:" + ty), ty, size=0.5)
         _obj, path = aoef_impl.save_real(cj, None)
         _GATE_DOCS[ty] = _json.load(open(path))
@@ -762,13 +782,20 @@ def _fs_prepare(ctx, hs):
 
 def _stage_fs(ctx, st):
     """the file system is the state between calls: histories of saves and loads over shared paths"""
-    hs = _fs_prepare(ctx, c01_fs.histories(ctx.rng, ctx.budget(40, 800)))
+    hs = _fs_prepare(ctx, c01_fs.histories(ctx.rng, ctx.budget(48, 960)))
     ctx.tally("file-system histories", len(hs))
     ctx.run_cases(OPS["fs_history"], hs)
 
 
 def _stage_gate(ctx, st):
-    # the file-level gate of io.load: every combination of existence / suffix / format / version / type
+    # the file-level gate of io.load: every combination of existence / suffix / format / version / type.
+    # The documents the loader is shown are the *model's* (not written by the `io.save` under test).
+    tys = sorted({c["doc_type"] for c in _gate_cases()})
+    docs = ctx.model_many("save", [{"collection": aoefgen.gen_collection(random.Random("gate:" + ty), ty, size=0.5), "audio_dir": None}
+                                   for ty in tys])
+    for ty, d in zip(tys, docs):
+        if isinstance(d, dict) and "val" in d:
+            _GATE_DOCS[ty] = aoef.aoef_file(aoef.model_to_doc(d["val"]))
     ctx.run_cases(OPS["load_gate"], _gate_cases())
     ctx.exhaustive["load_gate"] = "exists x suffix x format{None,aoef,other} x version{3} x doc type{3} x requested type{4}"
     ctx.run_cases(OPS["save_gate"], _save_gate_cases())
